@@ -115,6 +115,29 @@ fn partial_order_wrappers(rep: &mut Report) {
             if observe(&ts, &te) != expected(None) {
                 rep.violation("C15/TestResult/score-comparable-to-error", || json!({"inner_type": "f64", "a": format!("{a:?}"), "b": format!("{b:?}")}));
             }
+            // individuals and result collections over a *partial* order compare exactly as their
+            // (total) results do - incomparable stays incomparable, through every operator
+            let pairs: [(&str, TestResult<f64, f64>, TestResult<f64, f64>); 4] = [
+                ("score/score", TestResult::Score(Score(a)), TestResult::Score(Score(b))),
+                ("error/error", TestResult::Error(Error(a)), TestResult::Error(Error(b))),
+                ("score/error", ts, te),
+                ("error/score", TestResult::Error(Error(a)), TestResult::Score(Score(b))),
+            ];
+            for (what, x, y) in pairs {
+                rep.eval();
+                let want = observe(&x, &y);
+                let ind = observe(&EcIndividual::new(7u8, x), &EcIndividual::new(9u8, y));
+                let raw = observe(&EcIndividual::new(vec![1u8], a), &EcIndividual::new(vec![2u8, 3], b));
+                let coll = observe(&TestResults { results: vec![x, x], total_result: x }, &TestResults { results: vec![y], total_result: y });
+                let nested = observe(
+                    &EcIndividual::new("g", TestResults { results: vec![x], total_result: x }),
+                    &EcIndividual::new("h", TestResults { results: vec![y, y, y], total_result: y }),
+                );
+                if ind != want || coll != want || nested != want || raw != expected(a.partial_cmp(&b)) {
+                    rep.violation("C15/partial-order/not-as-total-results", || json!({"pair": what, "a": format!("{a:?}"), "b": format!("{b:?}"), "results_compare": format!("{want:?}"),
+                        "individuals_compare": format!("{ind:?}"), "collections_compare": format!("{coll:?}"), "individuals_over_collections_compare": format!("{nested:?}"), "individuals_over_plain_f64_compare": format!("{raw:?}")}));
+                }
+            }
         }
     }
     // unsigned and 128-bit inner types at their extremes
